@@ -16,6 +16,7 @@ tvars == <<vars, tid, pos, verdict>>
 Ev == Traces[tid][pos]
 SetOf(seq) == {seq[i] : i \in 1..Len(seq)}
 EmptySeq == <<>>
+TExp9 == -9
 
 TInit == Init /\ tid \in 1..Len(Traces) /\ pos = 1 /\ verdict = "none"
 
@@ -29,6 +30,7 @@ Step(e) ==
                               [] e.kind = "shift0" -> BreakConservation(e.i, e.a)
                               [] OTHER             -> FALSE
       [] e.ev = "again"  -> Again
+      [] e.ev = "trace"  -> SetTrace(SetOf(e.T))
       [] OTHER           -> FALSE
 
 \* the observation: number of equations, zero-ness class of the 50 digit residual, and the
@@ -36,7 +38,8 @@ Step(e) ==
 ObsLen(e)   == ~e.obs.raised /\ e.obs.len = NEq(sys, e.rp) /\ WrittenLegal(e.opt[5], e.wr)
 ObsZero(e)  == IF expd.zero THEN e.obs.cls = "zero" ELSE e.obs.cls = "nonzero"
 ObsQ(e)     == e.obs.q = expd.q
-ObsTot(e)   == e.obs.keys = sys.ks /\ e.obs.totc = expd.totc /\ e.obs.tot0 = expd.tot0
+ObsTot(e)   == /\ e.obs.keys = sys.ks /\ e.obs.totc = expd.totc /\ e.obs.tot0 = expd.tot0
+               /\ e.obs.totcT = expd.totcT /\ e.obs.tot0T = expd.tot0T
 \* argument forms: stacked float states (c, ceq), dict arguments, and the un-reduced (A, ks) / own constants
 ObsForms(e) == /\ e.obs.qarr = <<expd.q, K>>
                /\ e.obs.totd = <<expd.totc, expd.tot0>>
